@@ -85,14 +85,16 @@ def check(pid, tier):
                 continue
             was = ledger.get(ob.name)
             # replay the solver's counterexample on the real code where the inputs are scalars
-            snippet, concrete, confirmed = None, None, False
+            snippet, concrete, confirmed, rep_out = None, None, False, ''
             try:
                 from deductive.replayers import replay_for
                 rp = replay_for(ob.function, ob.model if isinstance(ob.model, dict) else None)
                 if rp is not None:
                     snippet, concrete = rp
-                    rep, out = core.run_snippet(snippet)
+                    rep, rep_out = core.run_snippet(snippet)
                     confirmed = rep is True
+                    if confirmed and isinstance(concrete, dict):
+                        concrete = dict(concrete, replay_output=rep_out.strip()[-600:])
             except Exception:
                 pass
             if confirmed:
